@@ -1,6 +1,6 @@
 """C17: R-COVER(merge_regions / reserve_regions), reserve_items vs push agreement,
 R-NOALLOC / R-AMORTISED."""
-from core import Ctx, callee_tag, classify, closure_sites, base_places, describe, short
+from core import Ctx, callee_tag, classify, closure_sites, base_places, describe, short, fnitem_of_operand
 from model import (Catalogue, constructed, self_field_targets, is_storage_type, is_phantom,
                    SIZED_CTORS, EMPTY_CTORS)
 from expr import trees, tree, show, operand_tree
@@ -39,7 +39,7 @@ def walk(t):
                 yield from walk(x)
 
 
-def arg_projection_fields(F, ctx, operand_origins, _depth=0):
+def arg_projection_fields(F, ctx, operand_origins, _depth=0, _callback=False):
     """Provenance of a size / iterator argument such as `regions.map(|r| &r.slices)` or a count
     accumulated in a loop over the regions: the set of fields of the *elements of a parameter*
     the value is computed from, and whether it derives from a parameter at all."""
@@ -66,11 +66,22 @@ def arg_projection_fields(F, ctx, operand_origins, _depth=0):
             # field of an element of the parameter (regions[*].f) or of the closure's own
             # parameter standing for one region
             fs = [x for x in p if x.startswith("f:") and not x[2:].isdigit()]
-            if fs and ("[]" in p or c.parent is not None or c.body.kind == "Closure"):
+            if fs and ("[]" in p or c.parent is not None or c.body.kind == "Closure" or (_callback and c is ctx)):
                 fields.add(fs[0][2:])
         elif r[0] == "call":
             t = c.body.term(r[1])
             for a in t["args"]:
+                fi = fnitem_of_operand(a)
+                if fi is not None and fi.get("local") and _depth < 4:
+                    # a function item used as the callback (`regions.map(region_of)`): what it
+                    # returns, computed from its parameter, is what a closure would return
+                    fb = F.body((fi.get("resolved") or {}).get("key") or fi.get("key"))
+                    if fb is not None:
+                        fc = Ctx(fb)
+                        fl, fp = arg_projection_fields(F, fc, fc.org.local(0), _depth + 1, _callback=True)
+                        fields |= fl
+                        from_param = from_param or fp
+                    continue
                 for o in c.org.operand(a):
                     stack.append((c, o))
         elif r[0] == "agg":
